@@ -819,6 +819,13 @@ func (E *Engine) VerifyFunction(fn *ssa.Function, fc *FuncContract) {
 		st.regs[p] = v
 		fr.params[p.Name()] = v
 	}
+	for old, idx := range E.paramAliases(fn) {
+		// a renamed parameter keeps answering to the name the contracts use
+		if _, taken := fr.params[old]; !taken {
+			fr.params[old] = fr.params[fn.Params[idx].Name()]
+			E.noteAssumption(fmt.Sprintf("RENAMED PARAMETER: the contract of %s names %q; parameter %d is now called %q and is taken for it", fnKey(fn), old, idx, fn.Params[idx].Name()))
+		}
+	}
 	for i, fv := range fn.FreeVars {
 		v := x.freshVal("fv."+fv.Name(), fv.Type(), st)
 		if len(v.L) == 1 && v.A == nil {
@@ -1290,4 +1297,29 @@ func (E *Engine) writeHints() {
 	}
 	b, _ := json.MarshalIndent(E.hints, "", " ")
 	os.WriteFile(hintsPath(), b, 0o644)
+}
+
+// paramAliases: for a function whose parameters were renamed since the hints were written, the old names (as the
+// contracts use them) mapped to the index of the parameter that stands in their place.
+func (E *Engine) paramAliases(fn *ssa.Function) map[string]int {
+	if fn == nil {
+		return nil
+	}
+	E.loadHints()
+	known := map[string]bool{}
+	for _, h := range E.hints[fnKey(fn)] {
+		known[h.Name] = true
+	}
+	out := map[string]int{}
+	for _, h := range E.hints[fnKey(fn)] {
+		if !strings.HasPrefix(h.Type, "param:") || h.Ord < 0 || h.Ord >= len(fn.Params) {
+			continue
+		}
+		cur := fn.Params[h.Ord]
+		if cur.Name() == h.Name || known[cur.Name()] || "param:"+cur.Type().String() != h.Type {
+			continue
+		}
+		out[h.Name] = h.Ord
+	}
+	return out
 }
